@@ -5,7 +5,7 @@
 import GIV.Model.Build
 
 namespace GIV.Build
-open GIV GIV.Gen.Imports
+open GIV GIV.Gen.ImportsBuild
 
 @[simp] theorem hasPrefix_nil (b : Bytes) : hasPrefix [] b = true := by simp [hasPrefix, List.isPrefixOf]
 @[simp] theorem hasPrefix_cons_nil (a : UInt8) (as : Bytes) : hasPrefix (a :: as) [] = false := by
